@@ -866,6 +866,10 @@ class Ctx:
         elif mname == "setdefault":
             new = app("dict_setdefault", asV(cur), a[0], a[1] if len(a) > 1 else NONE)
             ret = app("dict_get", new, a[0])
+        elif mname == "sort" and not args and set(kwargs) <= {"key", "reverse"}:
+            # xs.sort(key=k, reverse=r) leaves in xs what sorted(xs, key=k, reverse=r) returns (both are stable): the same term as lib._sorted
+            extra = [asV(v) for k, v in sorted(kwargs.items())]
+            new = app("py_sorted" + "".join("_" + k for k in sorted(kwargs)), asV(cur), *extra)
         else:
             raise Unsupported("mutating method .%s" % mname, e)
         l.set(q, new)
